@@ -425,13 +425,12 @@ partial def exec (x : XState) (args : List String) : XState × String :=
   | ["wlog"] => (x, "?")   -- answered only when the harness supplied the write log (then the line reads `flushcheck …`)
   | ["vrange", lst, v] =>
     -- v2 `VersionRange`: `Add` of each number (refused unless strictly ascending), then `FindPrevious`
-    let vs : List Nat := if lst == "-" then [] else (lst.splitOn ",").map String.toNat!
-    let rec asc : List Nat → Bool
-      | a :: b :: rest => a < b && asc (b :: rest)
-      | _ => true
-    if !asc vs then (x, "err-add") else
-    (x, (match V2.findPrevious vs v.toNat! with | none => "-1" | some c => toString c) ++ " " ++
-        (match V2.find vs v.toNat! with | none => "-1" | some c => toString c))
+    let adds : List Nat := if lst == "-" then [] else (lst.splitOn ",").map String.toNat!
+    match adds.foldl (fun acc a => acc.bind (fun vs => V2.rangeAdd vs a)) (some []) with
+    | none => (x, "err-add")
+    | some vs =>
+      (x, (match V2.findPrevious vs v.toNat! with | none => "-1" | some c => toString c) ++ " " ++
+          (match V2.find vs v.toNat! with | none => "-1" | some c => toString c))
   | "vex" :: _ => (x, icsVerify args)
   | "vnon" :: _ => (x, icsVerify args)
   | ["adopt"] =>
